@@ -328,6 +328,9 @@ def c03(tier, seed):
         {'line': './st a 4 && ./st b 0; echo $?', 'files': {'st': ST}, 'expect_stdout': 'a\n4\n', 'area': 'list:status-variable'},
         {'line': './st a 0 || ./st b 9; echo $?', 'files': {'st': ST}, 'expect_stdout': 'a\n0\n', 'area': 'list:status-variable'},
         {'line': './st a 200', 'files': {'st': ST}, 'expect_stdout': 'a\n', 'expect_rc': 200, 'area': 'list:status'},
+        {'line': './st 中 0 && ./st b 3 ; ./st é 7', 'files': {'st': ST}, 'expect_stdout': '中\nb\né\n', 'expect_rc': 7, 'area': 'list:multi-byte'},
+        {'line': './st é 4 || ./st 中文 0 && ./st c 5', 'files': {'st': ST}, 'expect_stdout': 'é\n中文\nc\n', 'expect_rc': 5, 'area': 'list:multi-byte'},
+        {'line': "./st 'x\\' 0 && ./st b 0 ; ./st c 6", 'files': {'st': ST}, 'expect_stdout': 'x\\\nb\nc\n', 'expect_rc': 6, 'area': 'list:backslash-in-single-quotes'},
     ]
     return out
 
@@ -470,6 +473,10 @@ def c15(tier, seed):
         {'script': 'function f() {\n    exit 6\n}\necho a\nf\necho b\n', 'files': F, 'expect_stdout': 'a\n', 'expect_rc': 6, 'area': 'exit:in-function'},
         {'script': 'set -e\necho a\n./st b 3\necho c\n', 'files': F, 'expect_stdout': 'a\nb\n', 'expect_rc': 3, 'area': 'set-e'},
         {'script': 'echo a\n./st b 3\necho c\n', 'files': F, 'expect_stdout': 'a\nb\nc\n', 'expect_rc': 0, 'area': 'no-set-e'},
+        {'script': 'function f() {\n    echo in-f\n}\nset -e\nf\n./st b 3\necho c\n', 'files': F, 'expect_stdout': 'in-f\nb\n', 'expect_rc': 3, 'area': 'set-e:after-function-call'},
+        {'script': 'function f() {\n    ./st in-f 4\n    echo not-reached\n}\nset -e\nf\necho c\n', 'files': F, 'expect_stdout': 'in-f\n', 'expect_rc': 4, 'area': 'set-e:inside-function'},
+        {'script': 'set -e\n./st a 0\n./st b 0\n', 'files': F, 'expect_stdout': 'a\nb\n', 'expect_rc': 0, 'area': 'set-e'},
+        {'script': "./pargs 'x' $1 \"$2\" `echo y` ${1}\n", 'args': ['a', 'b'], 'files': F, 'expect_stdout': _argv(['x', 'a', 'b', 'y', 'a']), 'area': 'script:arguments:after-quoted-words'},
         {'script': 'source lib.sh\n$HOME/pargs "$V"\nlf x\nal\nbasename $PWD\n',
          'files': dict(F, **{'lib.sh': 'V=fromlib\nfunction lf() {\n    echo "lf:$1"\n}\nalias al="echo aliased"\nmkdir -p sub\ncd sub\n'}),
          'expect_stdout': '[fromlib]\nlf:x\naliased\nsub\n', 'area': 'source:persists'},
@@ -533,6 +540,12 @@ def c01(tier, seed):
         cases.append([('\\', a), ('', 'y')])
         cases.append([('\\', a), ('\\', a)])
         cases.append([('\\', a), ('|', '')])
+
+    # two escaped words of different kinds next to each other
+    for a in ('|', '$HOME', '>', '|x', '$'):
+        for b in ('~', '*', '&', '>a', '{a,b}', '<', '`echo`'):
+            cases.append([('\\', a), ('\\', b)])
+            cases.append([('\\', b), ('\\', a)])
 
     def wr(q, a):
         if q == '\\':
